@@ -120,6 +120,50 @@ def run(ctx):
         ctx.ob("R5.agree", "wrapper-capacity|%s:%s" % (file_, fname), P.where(f.body),
                "%s gives the library exactly dst / dst_capacity as its output window" % fname, ok)
 
+    # ---- the gzip bound is zlib's compressBound(): its guarantee is stated for the default deflate
+    # parameters (memLevel 8, 32K window); a stream opened with a smaller memLevel emits more stored
+    # blocks and can outgrow it
+    gz = P.inlined(P.fn("carquet_gzip_compress", GZ), 2)
+    inits = [c for c in gz.body.walk() if c.k == "CallExpr" and c.callee in ("deflateInit2_", "deflateInit_")]
+    bnd = P.fn("carquet_gzip_compress_bound", GZ)
+    uses_cb = bool(bnd.calls("compressBound"))
+    key = "gzip-bound-params|%s:carquet_gzip_compress" % GZ
+    if not uses_cb or len(inits) != 1:
+        ctx.inconclusive("R5.agree", key, P.where(gz.body), "the gzip bound and the deflate parameters agree",
+                         "bound not built on compressBound() or %d deflateInit calls" % len(inits))
+    elif inits[0].callee == "deflateInit_":
+        ctx.ok("R5.agree", key, P.where(inits[0]), "deflateInit uses the default parameters compressBound() is stated for")
+    else:
+        a = inits[0].args()
+        from ..rules import sem
+
+        def values(e):
+            """the values an argument can take: a constant, or the constants a helper of the file returns"""
+            if e.cv is not None:
+                return [e.cv]
+            x = e.strip_casts()
+            callee = x.callee if x.k == "CallExpr" else x.get("n") if x.k == "InlinedCall" else x.get("inl") if x.k == "ParenExpr" else None
+            if callee and P.by_name.get(callee):
+                g = [f_ for f_ in P.by_name[callee] if P.rel(f_.file) == GZ]
+                if g:
+                    try:
+                        paths = sem.run(P, g[0], [sem.U] * len(g[0].params), single=False, max_forks=256)
+                    except sem.Inconclusive:
+                        return None
+                    vs = [r for r, _e, _h in paths]
+                    return vs if all(isinstance(v, int) for v in vs) else None
+            return None
+        mem = values(a[4]) if len(a) > 4 else None
+        win = values(a[3]) if len(a) > 3 else None
+        if mem is None or win is None:
+            ctx.inconclusive("R5.agree", key, P.where(inits[0]), "the gzip bound and the deflate parameters agree",
+                             "memLevel / windowBits are not constants: %s / %s" % (src(a[4]) if len(a) > 4 else "?", src(a[3]) if len(a) > 3 else "?"))
+        else:
+            ctx.ob("R5.agree", key, P.where(inits[0]),
+                   "deflate is opened with memLevel >= 8 and a 32K window (gzip wrapper), the parameters for which compressBound() + 18 "
+                   "bounds the output", min(mem) >= 8 and all((w & 15) == 15 or w == 15 + 16 for w in win),
+                   "memLevel %s, windowBits %s" % (sorted(set(mem)), sorted(set(win))))
+
     # ---- compress_data: semantic table (shared with C01/C05)
     from ..rules import codecrepr
     codecrepr.writer(ctx, "R5.agree", "codec-pair")
